@@ -20,31 +20,31 @@ class BigRef(refscxml.Ref):
     MAXSTEPS = 1500
 
 
-def exact(ch, hist, dm, engine, parsed, variants):
+def exact(ch, hist, dm, engine, parsed, variants, cancel_end=False):
     r = BigRef(ch, variants)
-    r.interpret(hist)
+    r.interpret(hist, cancel_end=cancel_end)
     if r.diverged: return False
     v, k, d = c01lib.compare_case(ch, hist, dm, engine, parsed, r)
     return v == 'ok'
 
 
-def attribute(ch, hist, dm, pl, pf):
+def attribute(ch, hist, dm, pl, pf, cancel_end=False):
     from vf.checks import c01
-    v, k, d = c01.judge(ch, hist, dm, 'large', pl)
+    v, k, d = c01.judge(ch, hist, dm, 'large', pl, cancel_end=cancel_end)
     if v == 'diverged':
         # long but terminating run: judge with the larger caps
-        r0 = BigRef(ch); r0.interpret(hist)
+        r0 = BigRef(ch); r0.interpret(hist, cancel_end=cancel_end)
         if not r0.diverged: v, k, d = c01lib.compare_case(ch, hist, dm, 'large', pl, r0)
     if v == 'deviation' and k == 'nested-history-shared-store':
         # both engines share the one-set history store; once it has produced a wrong (possibly illegal) configuration the engines need not agree
         return 'nested-history-shared-store'
-    large_ok = exact(ch, hist, dm, 'large', pl, ()) or exact(ch, hist, dm, 'large', pl, ('static_domain',))
-    fast_static = exact(ch, hist, dm, 'fast', pf, ('static_select', 'static_domain'))
+    large_ok = exact(ch, hist, dm, 'large', pl, (), cancel_end) or exact(ch, hist, dm, 'large', pl, ('static_domain',), cancel_end)
+    fast_static = exact(ch, hist, dm, 'fast', pf, ('static_select', 'static_domain'), cancel_end)
     if large_ok and fast_static:
         return 'fast-static-conflict-selection'
     if large_ok:
         # fast follows the static-selection reference up to a micro step where the shared history store shows (K9 predicate of vf.compare)
-        r = BigRef(ch, ('static_select', 'static_domain')); r.interpret(hist)
+        r = BigRef(ch, ('static_select', 'static_domain')); r.interpret(hist, cancel_end=cancel_end)
         if not r.diverged:
             v2, k2, d2 = c01lib.compare_case(ch, hist, dm, 'fast', pf, r)
             if v2 == 'deviation' and k2 == 'nested-history-shared-store': return 'nested-history-shared-store'
@@ -65,11 +65,14 @@ def work(job):
     run = []
     for cid, ch, h, dm, xml in built:
         x = xml if xml is not None else C.render(ch, dm)
+        fl = ['novars'] if xml is not None else []
+        # every third generated case ends with cancel(): the completion path (exit handlers of all active states) must agree too
+        if xml is None and zlib.crc32(cid.encode()) % 3 == 1: fl = fl + ['cancelend']
         for eng in ('large', 'fast'):
-            run.append({'id': cid + ':' + eng, 'xml': x, 'engine': eng, 'hist': h, 'flags': ['novars'] if xml is not None else []})
+            run.append({'id': cid + ':' + eng, 'xml': x, 'engine': eng, 'hist': h, 'flags': fl})
         if zlib.crc32(cid.encode()) % 4 == 0:
             # no engine chosen at all: the interpreter instantiates its default, which is documented to be 'large'
-            run.append({'id': cid + ':default', 'xml': x, 'engine': 'default', 'hist': h, 'flags': ['novars'] if xml is not None else []})
+            run.append({'id': cid + ':default', 'xml': x, 'engine': 'default', 'hist': h, 'flags': fl})
     res = c01lib.run_batch(binary, run)
     out = []
     for cid, ch, h, dm, xml in built:
@@ -108,7 +111,7 @@ def work(job):
         else:
             i = 0
             while i < min(len(a), len(b)) and a[i] == b[i]: i += 1
-            key = attribute(ch, h, dm, pl, pf) if ch is not None else None
+            key = attribute(ch, h, dm, pl, pf, cancel_end=(zlib.crc32(cid.encode()) % 3 == 1)) if ch is not None else None
             if key is None:
                 la = a[i].split(' ')[0] if i < len(a) else 'END'
                 key = 'engines-differ:first-difference-at-%s' % la
